@@ -30,7 +30,11 @@ func runStreamJob(job *Job, res *Result) {
 	size, _ := strconv.Atoi(job.Args["size"])
 	maxT, _ := strconv.Atoi(job.Args["max"])
 	rerun := job.Args["rerun"] == "1"
+	mixed := job.Args["mixed"] == "1" // the producer also has an ordinary (non-streaming) output
 	res.Scenario = fmt.Sprintf("stream/n=%d/payload=%d/max=%d", n, size, maxT)
+	if mixed {
+		res.Scenario += "/mixed-outputs"
+	}
 	if rerun {
 		res.Scenario += "/rerun"
 	}
@@ -61,8 +65,15 @@ func runStreamJob(job *Job, res *Result) {
 		os.Setenv("SCIPIPE_BUFSIZE", "2")
 		wf := sp.NewWorkflowCustomLogFile("w", maxT, "/dev/null")
 		src := components.NewFileSource(wf, "src", srcItems("in", n)...)
-		prod := wf.NewProc("prod", "cat {i:in} > {os:out}")
+		prodCmd := "cat {i:in} > {os:out}"
+		if mixed {
+			prodCmd += " && echo done > {o:log}"
+		}
+		prod := wf.NewProc("prod", prodCmd)
 		prod.SetOut("out", "{i:in}.stream")
+		if mixed {
+			prod.SetOut("log", "{i:in}.log")
+		}
 		cons := wf.NewProc("cons", "cat {i:in} > {o:out}")
 		cons.SetOut("out", "{i:in}.copy")
 		prod.In("in").From(src.Out())
@@ -125,7 +136,7 @@ func runStreamJob(job *Job, res *Result) {
 				who = "the producer (blocked opening a FIFO nobody reads)"
 			}
 			sig := ""
-			if rerun {
+			if rerun && !mixed {
 				sig = "stream-rerun|producer-blocks-on-fifo"
 			}
 			add(cls, fmt.Sprintf("the run never terminates: %s is stuck: %v", who, stuck), sig)
